@@ -9,14 +9,30 @@ use std::collections::VecDeque;
 use std::io::{Read, Write};
 use std::rc::Rc;
 
-/// A source that can grow between reads; an empty source reports end of data.
+/// A source that can grow between reads; an empty source reports end of data.  The second field is the
+/// state of a xorshift generator: when non-zero every `read` hands out only 1..3 bytes (a legal short read,
+/// as a pipe, socket or chained reader would), otherwise as many as are there.
 #[derive(Clone)]
-pub struct Grow(pub Rc<RefCell<VecDeque<u8>>>);
+pub struct Grow(pub Rc<RefCell<VecDeque<u8>>>, pub Rc<std::cell::Cell<u64>>);
+impl Grow {
+    pub fn new(q: VecDeque<u8>, dribble: u64) -> Self {
+        Grow(Rc::new(RefCell::new(q)), Rc::new(std::cell::Cell::new(dribble)))
+    }
+}
 impl Read for Grow {
     fn read(&mut self, buf: &mut [u8]) -> std::io::Result<usize> {
         let mut q = self.0.borrow_mut();
+        let mut limit = buf.len();
+        let mut s = self.1.get();
+        if s != 0 {
+            s ^= s << 13;
+            s ^= s >> 7;
+            s ^= s << 17;
+            self.1.set(s);
+            limit = limit.min(1 + (s % 3) as usize);
+        }
         let mut n = 0;
-        while n < buf.len() {
+        while n < limit {
             match q.pop_front() {
                 Some(b) => {
                     buf[n] = b;
@@ -250,7 +266,7 @@ pub struct Runner {
 
 impl Runner {
     pub fn new(full: bool, o: u8) -> Self {
-        let src = Grow(Rc::new(RefCell::new(VecDeque::new())));
+        let src = Grow::new(VecDeque::new(), 0);
         Runner { full, o, st: H263State::new(opts_of(o)), src: src.clone(), session: H263Reader::from_source(src), dead: false }
     }
 
@@ -315,6 +331,11 @@ impl Runner {
                 Ok(v) => format!("bits={}", v),
                 Err(e) => format!("bits:err:{}", err_name(&e)),
             },
+            b'M' => {
+                // from now on the session source hands out short reads
+                self.src.1.set(arg.parse::<u64>().unwrap());
+                "mode".to_string()
+            }
             b'X' => self.pipeline(),
             _ => panic!("bad op"),
         });
